@@ -66,7 +66,49 @@ func sop(kind string, fid p9p.Fid, rest ...any) SOp {
 	return o
 }
 
-func c14Specs() []c14Spec {
+// c14Pairs: every unordered pair of operations colliding on fid 1, for a
+// closed directory fid and for an open file fid.
+func c14Pairs() []c14Spec {
+	attach0 := sop("attach", 0)
+	dirSetup := []SOp{attach0, sop("walk", 0, p9p.Fid(1), []string{"a"})}
+	fileSetup := []SOp{attach0, sop("walk", 0, p9p.Fid(1), []string{"a", "b"}), sop("open", 1, p9p.ORDWR)}
+	dirOps := []SOp{
+		sop("stat", 1), sop("wstat", 1), sop("clunk", 1), sop("remove", 1), sop("open", 1, p9p.OREAD),
+		sop("walk", 1, p9p.Fid(2), []string{}), sop("walk", 1, p9p.Fid(3), []string{"b"}), sop("walk", 1, p9p.Fid(1), []string{"d"}),
+		sop("walk", 1, p9p.Fid(4), []string{"b", "x"}), sop("create", 1, "n", uint32(0644), p9p.ORDWR), sop("attach", 5, p9p.Fid(1)),
+	}
+	fileOps := []SOp{sop("read", 1), sop("write", 1), sop("stat", 1), sop("wstat", 1), sop("clunk", 1), sop("remove", 1), sop("open", 1, p9p.OREAD), sop("walk", 1, p9p.Fid(2), []string{})}
+	var out []c14Spec
+	name := func(o SOp) string {
+		n := o.Kind
+		if o.Kind == "walk" {
+			n = fmt.Sprintf("walk%d%v", o.Fid2, o.Names)
+		}
+		return n
+	}
+	gen := func(tag string, setup, ops []SOp) {
+		for i := range ops {
+			for j := i; j < len(ops); j++ {
+				a, b := ops[i], ops[j]
+				// two requests must not allocate the same new fid (the statement's proviso)
+				if a.Kind == "walk" && b.Kind == "walk" && a.Fid2 == b.Fid2 && a.Fid2 != 1 {
+					b.Fid2 += 10
+				}
+				if a.Kind == "attach" && b.Kind == "attach" {
+					b.Fid = 6
+				}
+				out = append(out, c14Spec{Name: fmt.Sprintf("pair/%s/%s|%s", tag, name(a), name(b)), Setup: setup, Tasks: [][]SOp{{a}, {b}}})
+			}
+		}
+	}
+	gen("dir", dirSetup, dirOps)
+	gen("file", fileSetup, fileOps)
+	return out
+}
+
+func c14Specs() []c14Spec { return append(c14Hand(), c14Pairs()...) }
+
+func c14Hand() []c14Spec {
 	attach0 := sop("attach", 0)
 	base := []SOp{attach0, sop("walk", 0, p9p.Fid(1), []string{"a", "b"}), sop("open", 1, p9p.ORDWR)}
 	dir1 := []SOp{attach0, sop("walk", 0, p9p.Fid(1), []string{"a"})}
@@ -195,6 +237,7 @@ func c14Check(state any, e *vsched.Exec) (string, []explore.Finding) {
 	perm := make([]int, 0, n)
 	used := make([]bool, n)
 	var okOrder []int
+	sawSkip := false
 	var try func(m *fidModel) bool
 	try = func(m *fidModel) bool {
 		if len(perm) == n {
@@ -222,6 +265,7 @@ func c14Check(state any, e *vsched.Exec) (string, []explore.Finding) {
 			mc := newFidModelFrom(m)
 			exp := mc.step(r.Op, r.Failed)
 			if exp.Skip {
+				sawSkip = true // an order in which the statement leaves the behaviour open (walk/create from an opened fid)
 				continue
 			}
 			match := exp.OK == r.Res.OK()
@@ -256,7 +300,7 @@ func c14Check(state any, e *vsched.Exec) (string, []explore.Finding) {
 	for _, o := range st.setup {
 		m0.step(o, "")
 	}
-	if len(probs) == 0 && !try(m0) {
+	if len(probs) == 0 && !try(m0) && !sawSkip {
 		bad("not-linearizable", "no sequential order of the operations consistent with real time yields these results and the final fid table {%s}", got)
 	}
 	var oc []string
